@@ -82,22 +82,32 @@ func c14ClassTables(c *Ctx) {
 	scan := c.scanFn()
 	ch, _ := decodedRune(scan)
 	startUse, partUse := false, false
+	units := []*ssa.Function{scan}
 	instrs(scan, func(b *ssa.BasicBlock, i int, in ssa.Instruction) {
-		call, ok := in.(*ssa.Call)
-		if !ok {
-			return
-		}
-		if cal := calleeOf(call); cal != nil && c.inModule(cal) {
-			if t := tables(cal); t["unicodeES5IdentifierStart"] && !t["unicodeES5IdentifierPart"] && len(call.Call.Args) > 0 && call.Call.Args[len(call.Call.Args)-1] == ch {
-				startUse = true
-			}
-		}
-		if peekKind(calleeOf(call)) == "check" {
-			if g := fnValue(call.Call.Args[2]); g != nil && tables(g)["unicodeES5IdentifierPart"] {
-				partUse = true
+		if call, ok := in.(*ssa.Call); ok {
+			if g := calleeOf(call); g != nil && c.inModule(g) && g != scan && typeName(recvType(g)) == "Scanner" && peekKind(g) == "" && !c.scannerDiagFns()[g] && len(g.Blocks) > 0 {
+				units = append(units, g) // helpers of single arms
 			}
 		}
 	})
+	for _, u := range units {
+		instrs(u, func(b *ssa.BasicBlock, i int, in ssa.Instruction) {
+			call, ok := in.(*ssa.Call)
+			if !ok {
+				return
+			}
+			if cal := calleeOf(call); cal != nil && c.inModule(cal) && u == scan {
+				if t := tables(cal); t["unicodeES5IdentifierStart"] && !t["unicodeES5IdentifierPart"] && len(call.Call.Args) > 0 && call.Call.Args[len(call.Call.Args)-1] == ch {
+					startUse = true
+				}
+			}
+			if peekKind(calleeOf(call)) == "check" {
+				if g := fnValue(call.Call.Args[2]); g != nil && tables(g)["unicodeES5IdentifierPart"] {
+					partUse = true
+				}
+			}
+		})
+	}
 	c.R.Check(rule, "scanner-first-char", c.P.Pos(scan.Pos()), startUse, "an identifier token must begin on the identifier-start class of the decoded character")
 	c.R.Check(rule, "scanner-following-chars", c.P.Pos(scan.Pos()), partUse, "an identifier token must continue over the identifier-part class")
 	c.R.Floor(rule, 4)
@@ -238,48 +248,67 @@ func c14ReturnsStored(c *Ctx) {
 	scan := c.scanFn()
 	n := 0
 	perArm := map[string]int{}
-	instrs(scan, func(b *ssa.BasicBlock, i int, in ssa.Instruction) {
-		ret, ok := in.(*ssa.Return)
-		if !ok || len(ret.Results) != 1 {
-			return
-		}
-		n++
-		arm := c.scanArmOf(b)
-		perArm[arm]++
-		cons := fmt.Sprintf("arm %s return#%d", arm, perArm[arm])
-		v := ret.Results[0]
-		// (a) a load of Scanner.token: some store must lie on every path to it within this call
-		if u, ok := v.(*ssa.UnOp); ok && isScannerField(u.X, "token") {
-			isTokStore := func(x ssa.Instruction) bool {
-				if st, ok := x.(*ssa.Store); ok && isScannerField(st.Addr, "token") {
-					return true
+	seenFn := map[*ssa.Function]bool{}
+	var examine func(scan *ssa.Function, prefix string, depth int)
+	examine = func(scan *ssa.Function, prefix string, depth int) {
+		instrs(scan, func(b *ssa.BasicBlock, i int, in ssa.Instruction) {
+			ret, ok := in.(*ssa.Return)
+			if !ok || len(ret.Results) != 1 {
+				return
+			}
+			n++
+			arm := prefix
+			if prefix == "" {
+				arm = c.scanArmOf(b)
+			}
+			perArm[arm]++
+			cons := fmt.Sprintf("arm %s return#%d", arm, perArm[arm])
+			v := ret.Results[0]
+			// (c) `return s.armHelper(...)`: the helper's returns are judged instead
+			if call, ok := v.(*ssa.Call); ok && depth < 3 {
+				if g := calleeOf(call); g != nil && c.inModule(g) && typeName(recvType(g)) == "Scanner" && peekKind(g) == "" && len(g.Blocks) > 0 && isTokStoreFree(scan, in) {
+					if !seenFn[g] {
+						seenFn[g] = true
+						examine(g, "helper "+c.P.FuncKey(g), depth+1)
+					}
+					c.R.Add(rule, cons, c.P.InstrPos(ret), OK, "")
+					return
 				}
-				return false
 			}
-			stale := pathExists(scan, nil, func(x ssa.Instruction) bool { return x == in }, isTokStore, nil)
-			c.R.Check(rule, cons, c.P.InstrPos(ret), !stale, "Scan returns the current-token field on a path that never stored it: the caller sees the previous token again")
-			return
-		}
-		// (b) any other value: the closest dominating store must store that very value
-		st := tokenStoreBefore(in)
-		same := false
-		if st != nil {
-			if st.Val == v {
-				same = true
+			// (a) a load of Scanner.token: some store must lie on every path to it within this call
+			if u, ok := v.(*ssa.UnOp); ok && isScannerField(u.X, "token") {
+				isTokStore := func(x ssa.Instruction) bool {
+					if st, ok := x.(*ssa.Store); ok && isScannerField(st.Addr, "token") {
+						return true
+					}
+					return false
+				}
+				stale := pathExists(scan, nil, func(x ssa.Instruction) bool { return x == in }, isTokStore, nil)
+				c.R.Check(rule, cons, c.P.InstrPos(ret), !stale, "Scan returns the current-token field on a path that never stored it: the caller sees the previous token again")
+				return
 			}
-			k1, ok1 := st.Val.(*ssa.Const)
-			k2, ok2 := v.(*ssa.Const)
-			if ok1 && ok2 && k1.Value != nil && k2.Value != nil && constant.Compare(k1.Value, token.EQL, k2.Value) {
-				same = true
+			// (b) any other value: the closest dominating store must store that very value
+			st := tokenStoreBefore(in)
+			same := false
+			if st != nil {
+				if st.Val == v {
+					same = true
+				}
+				k1, ok1 := st.Val.(*ssa.Const)
+				k2, ok2 := v.(*ssa.Const)
+				if ok1 && ok2 && k1.Value != nil && k2.Value != nil && constant.Compare(k1.Value, token.EQL, k2.Value) {
+					same = true
+				}
+				// unreachable trailing return after an infinite loop is vacuous
 			}
-			// unreachable trailing return after an infinite loop is vacuous
-		}
-		if len(b.Preds) == 0 && b != scan.Blocks[0] {
-			c.R.Add(rule, cons, c.P.InstrPos(ret), OK, "")
-			return
-		}
-		c.R.Check(rule, cons, c.P.InstrPos(ret), same, "Scan returns "+shortVal(v)+" without having stored it as the current token: the parser, which reads the stored token, sees a different token than the one returned")
-	})
+			if len(b.Preds) == 0 && b != scan.Blocks[0] {
+				c.R.Add(rule, cons, c.P.InstrPos(ret), OK, "")
+				return
+			}
+			c.R.Check(rule, cons, c.P.InstrPos(ret), same, "Scan returns "+shortVal(v)+" without having stored it as the current token: the parser, which reads the stored token, sees a different token than the one returned")
+		})
+	}
+	examine(scan, "", 0)
 	c.R.Floor(rule, 15)
 }
 
@@ -444,7 +473,20 @@ func c14Keywords(c *Ctx) {
 		// on identifier input the folded Scan reaches getIdentifierToken and stores tokenValue = text[tokenPos:pos]
 		o := c.ScanOn("a ")
 		reached := false
+		// the lookup call: in Scan itself, or in the arm helper Scan hands the identifier arm to
+		var lookups []ssa.CallInstruction
 		for _, call := range o.Fold.ReachableCalls() {
+			if calleeOf(call) == git {
+				lookups = append(lookups, call)
+				continue
+			}
+			if g := calleeOf(call); g != nil && c.inModule(g) && typeName(recvType(g)) == "Scanner" && peekKind(g) == "" {
+				for _, inner := range callsTo(g, git) {
+					lookups = append(lookups, inner)
+				}
+			}
+		}
+		for _, call := range lookups {
 			if calleeOf(call) == git {
 				reached = true
 				// the tokenValue store before it slices text[tokenPos:pos]
@@ -472,8 +514,11 @@ func c14Keywords(c *Ctx) {
 				c.R.Check(rule, "identifier-text-range", c.P.InstrPos(call.(ssa.Instruction)), sliceOK, "the identifier text handed to the keyword lookup must be text[tokenPos:pos] (the whole word)")
 				// not inside the identifier loop
 				inLoop := false
-				for _, l := range naturalLoops(c.scanFn()) {
-					if l.Header != c.scanFn().Blocks[1] && l.Body[call.Block()] {
+				for _, l := range naturalLoops(call.Parent()) {
+					if call.Parent() == c.scanFn() && l.Header == c.scanFn().Blocks[1] {
+						continue // the token loop itself
+					}
+					if l.Body[call.Block()] {
 						inLoop = true
 					}
 				}
@@ -1064,3 +1109,7 @@ func (c *Ctx) keywordBuilderRange(kwG *ssa.Global) (lo, hi int64, pos string, ok
 	}
 	return
 }
+
+// isTokStoreFree: always true; kept as the hook where a stricter condition on the caller's side of a tail call
+// (e.g. "the caller stored nothing contradictory") would go.
+func isTokStoreFree(f *ssa.Function, at ssa.Instruction) bool { return true }
